@@ -86,10 +86,10 @@ def build_feed(rng, n_lines, malformed, limit_parsing=False):
         counter += 1
         if roll < 0.25:
             cs = "C%05d" % (counter % 100000)
-            fr = enc.long_frame(17, 5, a, enc.me_ident(rng.randint(1, 4), 0, cs))
+            fr = enc.long_frame(17, rng.randrange(8), a, enc.me_ident(rng.randint(1, 4), 0, cs))
             lines.append(("good", enc.line(fr), a, cs))
         elif roll < 0.85:
-            fr = enc.long_frame(17, 5, a, enc.me_unique(rng.choice([0, 23, 25, 27]), counter))
+            fr = enc.long_frame(17, rng.randrange(8), a, enc.me_unique(rng.choice([0, 23, 25, 27]), counter))
             lines.append(("good", enc.line(fr), a, None))
         elif roll < 0.92:
             # well-formed lines of other formats: processed, but nothing to count
@@ -115,7 +115,7 @@ def build_feed(rng, n_lines, malformed, limit_parsing=False):
     for _ in range(3):
         counter += 1
         a = rng.choice(addrs)
-        lines.append(("good", enc.line(enc.long_frame(17, 5, a, enc.me_unique(0, counter))), a, None))
+        lines.append(("good", enc.line(enc.long_frame(17, rng.randrange(8), a, enc.me_unique(0, counter))), a, None))
     # the last line of every feed announces a sentinel aircraft: once it is on screen every earlier
     # line has been consumed (lines are processed in order), however slowly the client runs
     lines.append(("good", enc.line(enc.long_frame(17, 5, SENTINEL, enc.me_ident(4, 0, "ENDFEED"))), SENTINEL, "ENDFEED"))
@@ -376,7 +376,7 @@ def check_radar(col, binpath, rng, tag, seg_kind, delay_kind, malformed, disconn
         lines2 = []
         for k in range(rng.randint(5, 20)):
             a = rng.choice(addrs)
-            lines2.append(("good", enc.line(enc.long_frame(17, 5, a, enc.me_unique(23, 900000 + k))), a, None))
+            lines2.append(("good", enc.line(enc.long_frame(17, rng.randrange(8), a, enc.me_unique(23, 900000 + k))), a, None))
         lines2.append(("good", enc.line(enc.long_frame(17, 5, SENTINEL, enc.me_ident(4, 0, "ENDFEED"))), SENTINEL, "ENDFEED"))
         if disconnect == "retry_midline":
             # the connection drops in the middle of a line: what was received of it must not leak into the next connection
